@@ -16,6 +16,9 @@ PID = "C15"
 OPS = ["Copeland", "Borda", "Borda(bucket_id)", "BioConsert", "BioCo", "BioConsert[Copeland]", "KwikSortRandom", "PickAPerm", "ExactPulp",
        "ParCons", "ParCons(1,Copeland)", "parcons_partition", "parfront_partition"]
 NONDET = {"KwikSortRandom"}
+# user-side scoring of a candidate: Consensus(rankings, dataset, scheme) built WITHOUT a feature dictionary, score read lazily
+SCORE_OPS = {"score(tied)": lambda n: [list(range(n))], "score(order)": lambda n: [[e] for e in range(n)],
+             "score(reverse)": lambda n: [[e] for e in reversed(range(n))], "score(first|rest)": lambda n: [[0]] + ([list(range(1, n))] if n > 1 else [])}
 
 
 def snapshot(ds, sc):
@@ -39,6 +42,16 @@ def do_op(op, ds, sc, names, flag):
     if op in ("parcons_partition", "parfront_partition"):
         part = getattr(OrderedPartition, op)(ds, sc)
         return ("partition", [sorted((e.type.__name__, e.value) for e in g) for g in part]), None
+    if op in SCORE_OPS:
+        from corankco.consensus import Consensus
+        from corankco.ranking import Ranking
+        from corankco.element import Element
+        part = SCORE_OPS[op](len(names))
+        by_name = {str(e): e for e in ds.universe}
+        cons = Consensus([Ranking([{by_name[str(names[e])] for e in b} for b in part])], ds, sc)
+        score = cons.kemeny_score
+        cons.description()
+        return ("score-op", {e: i for i, b in enumerate(part) for e in b}), (score, cons.kemeny_score)
     alg, _ = sweep.make_config(op, [])
     try:
         cons = alg.compute_consensus_rankings(ds, sc, flag)
@@ -65,7 +78,7 @@ def item(args):
             ctx._ensure_model()
             mdl = ctx.model
         return {"signature": {"site": "+".join(ops), "class": cls}, "what": what, "rankings": shapes.raw_json(lvs, names), "ops": list(ops), "flag": flag,
-                "scheme": fork.scheme_values(mdl, B, T), "check": cls,
+                "scheme": fork.scheme_values(mdl, B, T), "check": cls, "names": list(names),
                 "choices": [c for c in ctx.choices if c[0] in ("pivot", "pulp-optimum", "cplex-optimum", "pool-anchor")]}
 
     def path(ctx):
@@ -93,6 +106,13 @@ def item(args):
                 mdl = ctx.prove(fork.term(score[0]) == fork.term(score[1]))
                 if mdl is not None:
                     out.append(payload(ctx, f"{op}: score changed after description()", "score-changed", mdl))
+                    return
+            if res[0] == "score-op":
+                # a candidate scored after other calls must get the score it gets in a fresh process: the definition
+                exp = spec.score_c(res[1], [list(lv) for lv in lvs], B, T, elems=list(range(len(names))))
+                mdl = ctx.prove(fork.term(score[0]) == fork.term(exp))
+                if mdl is not None:
+                    out.append(payload(ctx, f"{op} after {list(ops[:k])}: score of a user-built Consensus differs from its score in a fresh state", "score-history", mdl))
                     return
             # same operation on fresh copies, nondeterministic choices pinned to those of the shared run
             ds2 = shapes.build(lvs, names)
@@ -142,7 +162,7 @@ def run(run):
         nseq, plan = 40, {(2, 2): 5, (3, 1): 3, (3, 2): 12, (3, 3): 2}
     pools = {k: list(shapes.datasets(k[0], k[1], cover=True, allow_empty=(k[1] >= 2))) for k in plan}
     singles = [(op,) for op in OPS]
-    pairs = [p for p in itertools.product(OPS, repeat=2)]
+    pairs = [p for p in itertools.product(OPS + list(SCORE_OPS), repeat=2)]
     items = []
     # every operation alone on a few datasets, then sampled pairs
     dsl = []
@@ -160,18 +180,24 @@ def run(run):
         nm = sweep.NAMINGS[4][i % len(sweep.NAMINGS[4])]
         items.append((d, nm, ("ParCons",), True))
         items.append((d, nm, ("ParCons(nocplex)", "Borda"), True))
+    # user-side scoring sequences: several candidates scored one after the other, alone and around algorithm runs
+    sc_seqs = [("score(tied)", "score(order)", "score(reverse)", "score(first|rest)"), ("score(reverse)", "Copeland", "score(tied)"),
+               ("Borda", "score(order)", "parcons_partition", "score(first|rest)")]
+    for i, (d, k) in enumerate(dsl):
+        if i % (1 if run.thorough else 3) == 0:
+            items.append((d, sweep.NAMINGS[k[0]][i % len(sweep.NAMINGS[k[0]])], sc_seqs[(i // 3) % len(sc_seqs)], bool(i % 2)))
     for i in range(nseq):
         d, k = dsl[rnd.randrange(len(dsl))]
         seq = pairs[rnd.randrange(len(pairs))]
         if sum(1 for o in seq if o in heavy) > 1:
             continue
         items.append((d, sweep.NAMINGS[k[0]][i % len(sweep.NAMINGS[k[0]])], seq, bool(i % 2)))
-    run.bounds = {"datasets": len(dsl), "operations": OPS, "sequences": "every single operation + %d sampled ordered pairs" % nseq,
+    run.bounds = {"datasets": len(dsl), "operations": OPS + list(SCORE_OPS), "sequences": "every single operation + %d sampled ordered pairs" % nseq,
                   "sizes": "n <= 3, m <= 3 incl. empty rankings; plus n=4 datasets with a non-tieable component and a further element (ParCons sub-problems)"}
     run.assumptions = ["dataset shapes and operation sequences enumerated / sampled (declared enumeration), scheme symbolic",
                        "nondeterministic choices (pivots, ILP optimum) of the shared run are pinned in the fresh run",
                        "snapshot = rankings, buckets, positions, domains, both id maps, flags, name, both matrices, penalty terms (by value)"]
-    run.outside = ["sequences longer than 2 operations", "n > 3"]
+    run.outside = ["sequences longer than 2 operations (4 for the user-side scoring sequences)", "n > 3"]
     run.rule = "one item per (dataset, sequence); per path: snapshot comparison after every operation, shared vs fresh, repeat"
     run.pmap("monitor", item, items, chunksize=1)
     run.extra["work_items"] = len(items)
@@ -185,8 +211,9 @@ def replay(p):
     sc = ScoringScheme([[float(x) for x in v] for v in p["scheme"]])
     ds = Dataset.from_raw_list(shapes.from_json(p["rankings"]))
     ds.name = "shared"
-    names = sorted({x for r in p["rankings"] for b in r for x in b}, key=str)
+    names = p.get("names") or sorted({x for r in p["rankings"] for b in r for x in b}, key=str)
     s0 = snapshot(ds, sc)
+    lvs = [{names.index(x): i for i, b in enumerate(r) for x in b} for r in p["rankings"]]
     pins = [c[1] for c in p.get("choices", [])]
     for k, op in enumerate(p["ops"]):
         standins.PINNED[:] = list(pins)
@@ -198,6 +225,11 @@ def replay(p):
         d = diff(s0, snapshot(ds, sc))
         if d:
             return True, f"{op} modified its inputs: {d} changed"
+        if res[0] == "score-op":
+            cand = {int(e): i for e, i in res[1].items()}
+            exp = spec.score_c(cand, lvs, sc.b_vector, sc.t_vector, elems=list(range(len(names))))
+            if abs(score[0] - exp) > 1e-9:
+                return True, f"{op} after {p['ops'][:k]}: user-built Consensus scores {score[0]}, in a fresh state {exp}"
         ds2 = Dataset.from_raw_list(shapes.from_json(p["rankings"]))
         ds2.name = "shared"
         sc2 = ScoringScheme([[float(x) for x in v] for v in p["scheme"]])
